@@ -41,6 +41,8 @@ type c07Built struct {
 	nCol          int    // number of column-mover candidates
 	nLines        int
 	isKey         bool
+	flowAllowed   bool // the builder did not veto a flow holder
+	flowVeto      bool
 	info          map[string]int // pretext length, earlier placeholders, indentation ... for coverage
 	allowedStyles string
 }
@@ -311,8 +313,9 @@ func c07HasTag(tags []string, t string) bool {
 // key sites: where an unexpected / duplicate / otherwise diagnosed KEY can be placed
 
 type c07KeySite struct {
-	name string
-	kind string
+	name   string
+	kind   string
+	noFlow bool // the holder must stay in block style
 	// build places the construct and returns the key node that must be reported together with
 	// the expected message substrings (all at the key)
 	build func(w *c07WF, rr *Rand) (key *c07Node, msgs []string, optional []string)
@@ -583,6 +586,13 @@ func c07KeySites() []c07KeySite {
 			cr.str("username", "me")
 			return c07AppendKey(c, "credentials", cr), []string{"both \"username\" and \"password\" must be specified"}, nil
 		}},
+		{name: "schedule-item", kind: "schedule-item", noFlow: true, build: func(w *c07WF, rr *Rand) (*c07Node, []string, []string) {
+			it := c07M()
+			it.str("cron", "0 3 * * 1")
+			it.str(rr.Pick([]string{"foo", "timezone"}), "bar")
+			w.on.set("schedule", c07Q(it))
+			return it.ents[0].k, []string{"element of \"schedule\" section must be mapping and must contain one key \"cron\""}, nil
+		}},
 		{name: "event-key", kind: "event-key", build: func(w *c07WF, rr *Rand) (*c07Node, []string, []string) {
 			k := rr.Pick([]string{"pushh", "pull-request", "bogus_event"})
 			return c07AddKey(w.on, rr, k, nil), []string{"unknown Webhook event \"" + k + "\""}, nil
@@ -720,6 +730,14 @@ func c07ValSites() []c07ValSite {
 			}
 			return one(m.str("timeout-minutes", n), "expecting a single ${{...}} expression or float number literal")
 		}},
+		{name: "timeout.invalid-float", kind: "typed-literal", styles: "p", flowOK: true, build: func(w *c07WF, rr *Rand) (*c07Node, []string, []string) {
+			m := w.job
+			if rr.Bool() {
+				m = w.runStep
+			}
+			n := rr.Pick([]string{".nan", ".NaN", ".inf", ".Inf"})
+			return one(m.str("timeout-minutes", n), "invalid float value: \""+n+"\"")
+		}},
 		{name: "timeout.zero", kind: "typed-literal", styles: "p", flowOK: true, build: func(w *c07WF, rr *Rand) (*c07Node, []string, []string) {
 			m := w.job
 			if rr.Bool() {
@@ -850,6 +868,8 @@ type c07GlobErr struct {
 	trail     bool // must be at the very end (no suffix)
 	quoted    bool // cannot be written as a plain scalar
 	needsPrec bool // prefix must be non-empty and end with an ordinary character
+	neg       bool // the pattern must be negated with a leading "!"
+	noNeg     bool // the pattern must not be negated
 }
 
 func c07GlobErrs() []c07GlobErr {
@@ -858,7 +878,7 @@ func c07GlobErrs() []c07GlobErr {
 		{ref: true, bad: "~", msg: "character '~' is invalid for branch and tag names"},
 		{ref: true, bad: "^", msg: "character '^' is invalid for branch and tag names"},
 		{ref: true, bad: ":", msg: "character ':' is invalid for branch and tag names"},
-		{ref: true, bad: "/", lead: true, msg: "ref name must not start with /"},
+		{ref: true, bad: "/", lead: true, noNeg: true, msg: "ref name must not start with /"},
 		{ref: true, bad: "/", trail: true, needsPrec: true, msg: "ref name must not end with / and ."},
 		{ref: true, bad: ".", trail: true, needsPrec: true, msg: "ref name must not end with / and ."},
 		{ref: true, path: true, bad: "*?", in: 1, msg: "unexpected character '?' while checking special character ? (zero or one)"},
@@ -866,9 +886,14 @@ func c07GlobErrs() []c07GlobErr {
 		{ref: true, path: true, bad: "[]", in: 1, msg: "unexpected character ']' while checking content of character match []"},
 		{ref: true, path: true, bad: "[x]", in: 2, msg: "character match with single character is useless"},
 		{ref: true, path: true, bad: "[z-a]", in: 3, msg: "start of range 'z' (122) is larger than end of range 'a' (97)"},
-		{path: true, bad: " ", lead: true, quoted: true, msg: "path value must not start with spaces"},
+		{path: true, bad: " ", lead: true, quoted: true, noNeg: true, msg: "path value must not start with spaces"},
 		{path: true, bad: " ", trail: true, quoted: true, needsPrec: true, msg: "path value must not end with spaces"},
 		{ref: true, bad: "\\a", in: 0, msg: "only special characters [, ?, +, *, \\, ! can be escaped with \\"},
+		// negated patterns: the "!" is column 1 of the pattern
+		{ref: true, bad: "/", lead: true, neg: true, msg: "ref name must not start with /"},
+		{ref: true, path: true, bad: "", in: -1, lead: true, trail: true, neg: true, quoted: true, msg: "at least one character must follow !"},
+		// a tab is a blank for ref names (written literally inside quotes)
+		{ref: true, bad: "\t", quoted: true, msg: "character '\\t' is invalid for branch and tag names"},
 	}
 }
 
@@ -1146,7 +1171,8 @@ func c07IsKeyOf(m, k *c07Node) bool {
 
 // c07Build constructs one case of a group from a seed; the same seed with a non-empty shift gives
 // the shifted rendering of the same case.
-func c07Build(group string, seed uint64, sh c07Shift, cat *c07Catalogue, forceStyle byte) *c07Built {
+// flowMode: 0 = holder style as drawn, 'b' = block holder, 'f' = flow holder if the holder allows it.
+func c07Build(group string, seed uint64, sh c07Shift, cat *c07Catalogue, forceStyle byte, flowMode byte) *c07Built {
 	rr := &Rand{s: seed}
 	b := &c07Built{group: group, ok: true, info: map[string]int{}}
 	w := c07NewWF(rr)
@@ -1165,6 +1191,13 @@ func c07Build(group string, seed uint64, sh c07Shift, cat *c07Catalogue, forceSt
 	if !b.ok {
 		return b
 	}
+	b.flowAllowed = !b.flowVeto
+	switch flowMode {
+	case 'b':
+		wantFlow = false
+	case 'f':
+		wantFlow = b.flowAllowed
+	}
 	c07Layout(b, rr, sh, wantFlow)
 	if !b.ok {
 		return b
@@ -1176,6 +1209,10 @@ func c07Build(group string, seed uint64, sh c07Shift, cat *c07Catalogue, forceSt
 		allowed = a
 	}
 	st, ok := c07PickStyle(rr, b.target.val, allowed, b.inFlow, b.isKey)
+	if forceStyle != 0 && !strings.ContainsRune(allowed, rune(c07StyleLetter(forceStyle))) {
+		b.ok, b.why = false, "style not allowed for this construct"
+		return b
+	}
 	if forceStyle != 0 {
 		// a shifted rendering keeps the style of its base
 		st, ok = forceStyle, c07StyleOK(b.target.val, forceStyle, b.inFlow, b.isKey)
@@ -1189,6 +1226,16 @@ func c07Build(group string, seed uint64, sh c07Shift, cat *c07Catalogue, forceSt
 	b.src = c07Emit(b.root)
 	b.shifts = append(b.shifts, "col", "lines")
 	return b
+}
+
+func c07StyleLetter(st byte) byte {
+	switch st {
+	case c07Single:
+		return 'a'
+	case c07Double:
+		return 'd'
+	}
+	return 'p'
 }
 
 func (b *c07Built) infoStyles() (string, bool) {
